@@ -286,6 +286,10 @@ func checkC04(w *World, r *Report) {
 	if r.importObs(w, func(t *Report) { a4(w, t) }, "A-4", "N-8") < 2 {
 		r.Undecided("N-8", "evm-failure", "the EVM failure-handling rules (C05 A-4) matched fewer than 2 constructs")
 	}
+	// N-9: the "receiver has code" input of the decision table does not change between
+	// the routing in runTrx and the decision in postRunTrx
+	codeMarkerStable(w, r, "N-9")
+	r.Floor("N-9", 3, "code marker writers")
 	r.Floor("N-1", 4, "equality guard and its placement")
 	r.Floor("N-2", 5, "writers and callers of the nonce primitives")
 	r.Floor("N-3", 18, "decision table rows")
@@ -406,9 +410,7 @@ func n1(w *World, r *Report) {
 	// validate-before-run is decided under C03 S-1 / C05 A-1; repeat the cheap part here
 	es := needFn(r, "N-1", w, fref{"node", "TrxExecutor", "ExecuteSync"})
 	if es != nil {
-		vs := w.callsTo(es, fref{"node", "", "validateTrx"})
-		rs := w.callsTo(es, fref{"node", "", "runTrx"})
-		ok := len(vs) == 1 && len(rs) == 1 && w.nilTestAt(callValue(vs[0]), rs[0].Block()) == -1
+		ok, _ := w.validateBeforeRun(es)
 		r.Check(ok, "N-1", "ExecuteSync:validate-before-run", "runTrx only after validateTrx returned nil", "runTrx is reachable although validateTrx failed", fnSite(w, es))
 	}
 }
@@ -439,6 +441,42 @@ func n2(w *World, r *Report) {
 	}
 	w.checkCallers(r, "N-2", fref{pkgCT, "Account", "AddNonce"}, map[string]string{"node.postRunTrx": "the single place where a native transaction's nonce is consumed"}, 1)
 	w.checkCallers(r, "N-2", fref{pkgCT, "Account", "SetNonce"}, map[string]string{"evm.(*StateDBWrapper).Finish": "copies the EVM's nonce back after a contract execution"}, 1)
+}
+
+// codeMarkerStable: the routing decision table takes "the receiver has code" as an
+// input that is the same when runTrx routes the transaction and when postRunTrx
+// decides who consumes nonce and fee. That holds only if nothing changes an
+// account's code marker while a transaction executes, except marking the account a
+// deployment has just created: Account.Code has a closed set of writers and
+// SetCode a closed set of callers, and the account it is applied to is the one at
+// the created contract's address.
+func codeMarkerStable(w *World, r *Report, rule string) {
+	w.checkWriters(r, rule, pkgCT, "Account", "Code", map[string]string{
+		"types.(*Account).SetCode": "the marker primitive",
+		"types.(*Account).Decode":  "decoding a stored account",
+	})
+	w.checkCallers(r, rule, fref{pkgCT, "Account", "SetCode"}, map[string]string{"evm.(*EVMCtrler).ExecuteTrx": "marks the account created by a deployment", "account.(*AcctCtrler).SetCode": "controller API that nothing calls (its callers are checked next)"}, 1)
+	if w.Method("ctrlers/account", "AcctCtrler", "SetCode") != nil {
+		w.checkCallers(r, rule, fref{"ctrlers/account", "AcctCtrler", "SetCode"}, map[string]string{}, 0)
+	}
+	ex := needFn(r, rule, w, fref{pkgEVM, "EVMCtrler", "ExecuteTrx"})
+	if ex == nil {
+		return
+	}
+	n, bad := 0, ""
+	for _, hf := range w.withModuleCallees(ex, 2) {
+		for _, c := range w.callsTo(hf, fref{pkgCT, "Account", "SetCode"}) {
+			n++
+			rcv, _ := callRecvArgs(c.Common())
+			if rcv == nil || !w.inCallerTerms(ex, hf, func() bool {
+				rc := w.CanonDeep(rcv)
+				return strings.Contains(rc, "crypto.CreateAddress(") && !strings.Contains(rc, "p0.Receiver") && !strings.Contains(rc, "p0.Sender")
+			}) {
+				bad = site(w, c)
+			}
+		}
+	}
+	r.Check(n > 0 && bad == "", rule, "SetCode:created-account-only", "the code marker is set only on the account at the address the deployment created", "the code marker of an account other than the freshly created contract is changed during execution ("+bad+"): the routing of the running transaction is evaluated twice and would disagree with itself", fnSite(w, ex))
 }
 
 // txAbs is one abstract transaction for the routing decision table.
